@@ -68,6 +68,16 @@ SNIPPETS = [
     ("fwdref-var", ["_fv: 'ZedZ' = None"]),
     ("fwdref-return", ["def _frr() -> 'UnknownZ': pass"]),
     ("fwdref-nested", ["def _fn(x: 'list[UnknownQ]') -> 'UnknownR': pass"]),
+    # the reported line is the closing line of a triple-quoted string
+    ("mlstr-implicit-return", ["def _ms() -> int:", '  s = """first',
+                               'second"""']),
+    ("mlstr-attr", ['_ma = """a', 'b""".nonsense']),
+    ("mlstr-call", ["def _mc(a: int, b): pass", '_mc("""x', 'y""", 1)']),
+    ("mlstr-in-list", ['_ml = ["""p', 'q""", (1).nonsense]']),
+    ("mlstr-binop", ["_mb = 1 + \'\'\'u", "v\'\'\'"]),
+    ("mlstr-then-error", ['_mt = """k', 'l"""; (2).frob']),
+    ("mlstr-docstring-fn", ["def _md(x) -> int:", '  """doc', '  string"""',
+                            "  if x:", "    return 1"]),
     # one error on the first decorator line, another on the def line
     ("decorator-line", ["def _dd(a):", "  def w(f): return f", "  return w",
                         "@_dd((1).nonsense)", "def _dh(x=(2).frob): return x"]),
